@@ -38,7 +38,8 @@ template <class C> bool do_insert(C& c, int k, int, std::false_type) { return su
 template <class C> bool do_emplace(C& c, int k, int tag, std::true_type) { return succ(c.emplace(k, tag)); }
 template <class C> bool do_emplace(C& c, int k, int, std::false_type) { return succ(c.emplace(k)); }
 template <class R> auto succ_nh(const R& r) -> decltype(r.inserted) { return r.inserted; }   // insert_return_type of unique containers
-template <class It> bool succ_nh(const It&, ...) { return true; }
+template <class It> bool succ_nh(const std::pair<It, bool>& r) { return r.second; }   // unique containers of this library return pair<iterator, bool>
+template <class It> bool succ_nh(const It&, ...) { return true; }                         // multi containers return an iterator
 enum { K_INS, K_FIND, K_COUNT };
 static const char* const NAMES[] = {"insert", "find/contains", "count"};
 struct SModel { std::multiset<long> s; bool multi;
